@@ -119,6 +119,7 @@ void do_call_t(MockType& m, int fn, int a0, int a1, Obs& o) {
     case FN_K: { int cell = a0; const MockType& cm = m; const int& r = cm.k(cell); o.refaddr = &r; o.outcome = OC_RET_REF; break; }
     case FN_Z: m.z(); o.outcome = OC_RET_VOID; break;
     case FN_V: { std::vector<int> vec{a0, a0 + 1, a0}; m.v(vec); o.outcome = OC_RET_VOID; break; }
+    case FN_P: { auto pr = m.p(a0); o.sval = "{ " + std::to_string(pr.first) + ", " + std::to_string(pr.second) + " }"; o.outcome = OC_RET_STR; break; }
     default: break;
   }
 }
@@ -193,7 +194,7 @@ void exec_op(World& W, TaskCtx& T, const Op& op, bool concurrent) {
         Inst& x = *re.inst;
         x.id = rec.exp; for (int i = 0; i < 3; ++i) x.v[i] = rec.v[i];
         x.lo = static_cast<size_t>(rec.L < 0 ? 0 : rec.L); x.hi = static_cast<size_t>(rec.H < 0 ? 0 : rec.H);
-        x.snap = rec.snap; x.str = std::to_string(1000 + rec.exp); x.cell = re.cell.get();
+        x.snap = rec.snap; x.str = std::to_string(1000 + rec.exp); x.pr = {1000 + rec.exp, rec.exp}; x.cell = re.cell.get();
         for (int i = 0; i < rec.nseq; ++i) x.s[i] = W.seqs[static_cast<size_t>(rec.seqs[i])].get();
         MockBox& b = *W.task_refs[static_cast<size_t>(T.id)][static_cast<size_t>(rec.mock)];
         re.ep = shape_fns(rec.shape).make[b.kind](b.ptr(), x);
@@ -286,7 +287,7 @@ Plan gen_plan_t(uint64_t seed, bool faults) {
   for (int i = 0; i < nmocks; ++i) { Op o; o.kind = OP_NEW_MOCK; o.a[0] = rng.chance(1, 3) ? 1 : 0; p.setup.push_back(o); }
   for (int i = 0; i < nseqs; ++i) { Op o; o.kind = OP_NEW_SEQ; p.setup.push_back(o); }
   int nfocus = rng.range(1, 2), focus[2] = {0, 0};
-  static const int fw[NFN] = {10, 3, 5, 1, 2, 1, 2, 1, 2, 1};
+  static const int fw[NFN] = {10, 3, 5, 1, 2, 1, 2, 1, 2, 1, 1};
   for (int i = 0; i < nfocus; ++i) focus[i] = rng.pick(fw, NFN);
   auto gen_expect = [&](bool want_seq) {
     Op o; o.kind = OP_EXPECT;
